@@ -11,24 +11,39 @@ From V.Lib Require Import Base MachInt.
 From V.C14 Require Import Model.
 Local Open Scope Z_scope.
 
+Inductive script :=
+| SPubKeyHash (key : Z)          (* scriptPubKey of a P2PKH coin paying to key *)
+| SScriptHash (m n : Z)          (* scriptPubKey of a P2SH coin for the m-of-n redeem script *)
+| SRedeem (m n : Z).             (* the m-of-n redeem script over keys 4 .. 4+n-1 *)
+
+Inductive spend := SpP2pkh (key : Z) | SpP2sh (m n : Z) | SpRaw.
+Record coin := mkCoin { c_value : Z; c_spend : spend }.
+
+Definition coin_script (c : coin) : script :=
+  match c_spend c with SpP2pkh k => SPubKeyHash k | SpP2sh m n => SScriptHash m n | SpRaw => SScriptHash 0 0 end.
+Definition SIGHASH_ALL : Z := 1.
+
+(** The coins a request spends, in input order. The harness pays the j-th transparent input's
+    P2PKH coin to key (j mod 4). *)
+Fixpoint coins_from (pos : Z) (ops : list op) : list coin :=
+  match ops with
+  | [] => []
+  | TIn v :: r => mkCoin v (SpP2pkh (pos mod 4)) :: coins_from (pos + 1) r
+  | TInSh v m n :: r => mkCoin v (SpP2sh m n) :: coins_from (pos + 1) r
+  | TInRaw v :: r => mkCoin v SpRaw :: coins_from (pos + 1) r
+  | _ :: r => coins_from pos r
+  end.
+Definition coins_of (ops : list op) : list coin := coins_from 0 ops.
+
 Section Signing.
   (** everything else the sighash commits to: the unauthorized transaction and its txid parts *)
   Variable T : Type.
-
-  Inductive script :=
-  | SPubKeyHash (key : Z)          (* scriptPubKey of a P2PKH coin paying to key *)
-  | SScriptHash (m n : Z)          (* scriptPubKey of a P2SH coin for the m-of-n redeem script *)
-  | SRedeem (m n : Z).             (* the m-of-n redeem script over keys 4 .. 4+n-1 *)
-
-  Inductive spend := SpP2pkh (key : Z) | SpP2sh (m n : Z).
-  Record coin := mkCoin { c_value : Z; c_spend : spend }.
-
-  Definition coin_script (c : coin) : script :=
-    match c_spend c with SpP2pkh k => SPubKeyHash k | SpP2sh m n => SScriptHash m n end.
+  (** ZIP 244 (v5, v6) signature hashes also commit to the spent coin's scriptPubKey; the
+      pre-v5 (ZIP 143/243) ones commit to script_code and value only *)
+  Variable v5 : bool.
 
   Record sighash := mkSH {
-    h_tx : T; h_index : nat; h_code : script; h_spk : script; h_value : Z; h_type : Z }.
-  Definition SIGHASH_ALL : Z := 1.
+    h_tx : T; h_index : nat; h_code : script; h_spk : option script; h_value : Z; h_type : Z }.
 
   Inductive sig := Sig (key : Z) (msg : sighash).
 
@@ -39,8 +54,9 @@ Section Signing.
   (** the message input [i] must be signed over *)
   Definition msg_for (tx : T) (i : nat) (c : coin) : sighash :=
     match c_spend c with
-    | SpP2pkh k => mkSH tx i (SPubKeyHash k) (SPubKeyHash k) (c_value c) SIGHASH_ALL
-    | SpP2sh m n => mkSH tx i (SRedeem m n) (SScriptHash m n) (c_value c) SIGHASH_ALL
+    | SpP2pkh k => mkSH tx i (SPubKeyHash k) (if v5 then Some (SPubKeyHash k) else None) (c_value c) SIGHASH_ALL
+    | SpP2sh m n => mkSH tx i (SRedeem m n) (if v5 then Some (SScriptHash m n) else None) (c_value c) SIGHASH_ALL
+    | SpRaw => mkSH tx i (SRedeem 0 0) (if v5 then Some (SScriptHash 0 0) else None) (c_value c) SIGHASH_ALL
     end.
 
   (** apply_signatures, one input: [keys] = multisig keys in the signing set (the P2PKH keys are
@@ -51,6 +67,7 @@ Section Signing.
     | SpP2sh m n =>
         let ks := signing_keys keys m n in
         if len ks =? m then Some (SsMulti (map (fun k => Sig k (msg_for tx i c)) ks) m n) else None
+    | SpRaw => None          (* UnsupportedScript *)
     end.
 
   (** apply_signatures: inputs enumerated from [i] *)
@@ -93,3 +110,25 @@ Section Signing.
     | _, _ => false
     end.
 End Signing.
+
+(** What a signature was made over, as the harness observes it: the key under which it verifies
+    and the selector (input index, value, script code, scriptPubKey when committed, hash type)
+    of the signature hash it verifies for. *)
+Record sel := mkSel { s_key : Z; s_index : Z; s_value : Z; s_code : script; s_spk : option script; s_type : Z }.
+
+Definition sel_of_sig {T} (s : sig T) : sel :=
+  match s with Sig _ k m => mkSel k (Z.of_nat (h_index T m)) (h_value T m) (h_code T m) (h_spk T m) (h_type T m) end.
+Definition sels_of_script_sig {T} (ss : script_sig T) : list sel :=
+  match ss with
+  | SsP2pkh _ s _ => [sel_of_sig s]
+  | SsMulti _ sigs _ _ => map sel_of_sig sigs
+  end.
+
+Definition is_v5 (v : ver) : bool := match v with V5 | V6 => true | _ => false end.
+
+(** the selectors the signing step of the model produces for a request built under version [v] *)
+Definition model_sels (keys : list Z) (v : ver) (ops : list op) : list (list sel) :=
+  match apply_signatures unit (is_v5 v) keys tt (coins_of ops) with
+  | Some l => map sels_of_script_sig l
+  | None => []
+  end.
